@@ -86,3 +86,16 @@ Theorem C06_guarded_slot_is_euler_when_g_is_small :
     (Rabs gv <= Q2R delta)%R -> slot_value ROps MGuard delta sv fv gv dtv = (sv + dtv * fv)%R.
 Proof. exact guarded_slot_euler_when_small. Qed.
 Print Assumptions C06_guarded_slot_is_euler_when_g_is_small.
+
+(* "consequently it converges to the Euler step as dt -> 0": as a function of dt, every slot (Euler,
+   guarded, plain) equals the state at dt = 0 and has slope f there, exactly as the Euler update
+   x + dt*f has - the two steps differ by o(dt).  The plain formula needs g <> 0, which is what the
+   guard (or the verdict that replaces it) is there for. *)
+Theorem C06_step_agrees_with_euler_to_first_order_in_dt :
+  forall (md : mode) (delta : Q) (x f g : R),
+    (md = MPlain -> g <> 0%R) -> (0 <= Q2R delta)%R ->
+    slot_value ROps md delta x f g 0%R = x
+    /\ Coquelicot.Derive.is_derive (K := Coquelicot.Hierarchy.R_AbsRing) (V := Coquelicot.Hierarchy.R_NormedModule)
+         (fun dt : R => slot_value ROps md delta x f g dt) 0%R f.
+Proof. exact slot_first_order_is_euler. Qed.
+Print Assumptions C06_step_agrees_with_euler_to_first_order_in_dt.
